@@ -34,12 +34,22 @@ def run(tier, seed, replay=None):
     qtt_cases, qtt_want, n_qtt_coq = [], [], 0
     n_sched_blind = 0
     op_cases, op_want, n_op_coq = [], [], 0
+    cancel = [False]
     def rescale(t):
         """the contract is relative to the norm: every fourth operand is of tiny / huge magnitude (scale carried by one core)"""
         if rng.random() < 0.25:
             sc = rng.choice([1e-9, 1e-14, 1e-30, 1e10]); k_ = rng.randrange(len(t.cores))
             dist["scaled operand"] = dist.get("scaled operand", 0) + 1
             return torchtt.TT([c * (sc if j_ == k_ else 1.0) for j_, c in enumerate(t.cores)])
+        if rng.random() < 0.15:
+            # a cancelling difference a - (a + 1e-6 u), kept unrounded: cores of size one, a value of size 1e-6 - the tolerance is relative to the norm of the VALUE
+            cs_ = []
+            for c in t.cores:
+                shp_ = (1,) + tuple(c.shape[1:-1]) + (1,)
+                cs_.append(torch.tensor(np.array([rng.gauss(0, 1) for _ in range(int(np.prod(shp_)))]).reshape(shp_), dtype=torch.float64).to(c.dtype))
+            dist["cancelling operand"] = dist.get("cancelling operand", 0) + 1
+            cancel[0] = True                    # the representation carries a relative round-off of 1e-16 * 1e6 times the growth of the orthogonalisations (seen up to 1e-5) in the VALUE: only errors above 1e-4 count, the phase test is skipped
+            return t - (t + 1e-6 * torchtt.TT(cs_))
         if rng.random() < 0.25:
             # two scales in one operand: a rank-one component 1e-9 times smaller than the rest - a genuine part of the data for every eps below 1e-9
             cs_ = []
@@ -50,6 +60,7 @@ def run(tier, seed, replay=None):
             return t + 1e-9 * torchtt.TT(cs_)
         return t
     for i in range(n):
+        cancel[0] = False
         kind = rng.choice(["reshape", "reshape", "reshape-op", "permute", "permute", "permute-op", "qtt", "qtt-roundtrip"])
         if i < 14: kind = "reshape"            # the engineered reshape cases below
         cplx = rng.random() < 0.3
@@ -154,6 +165,10 @@ def run(tier, seed, replay=None):
                 x = solverkit.rand_tt_float(rng, N, solverkit.ranks(rng, d, 3), dt, cplx=cplx)
                 x = rescale(x)
                 eps = rng.choice([1e-12, 1e-8, 1e-4])
+                if i in (20, 40, 60):              # engineered: a cancelling difference (cores of size one, value 1e-6) at a loose tolerance - the tolerance is relative to the norm of the value
+                    kind = "qtt"; N = [[8, 2, 16], [16, 16], [4, 8, 4]][i // 20 - 1]; eps = 1e-4; cancel[0] = True; cplx = False; dt = torch.float64
+                    a_ = solverkit.rand_tt_float(rng, N, [1] + [3] * (len(N) - 1) + [1], dt); x = a_ - (a_ + 1e-6 * solverkit.rand_tt_float(rng, N, [1] + [2] * (len(N) - 1) + [1], dt))
+                    dist["qtt of a cancelling difference"] = dist.get("qtt of a cancelling difference", 0) + 1
                 desc = {"op": kind, "N": N, "eps": eps, "dtype": str(dt)}
                 snap = history.Snap(x)
                 q = x.to_qtt(eps)
@@ -173,9 +188,9 @@ def run(tier, seed, replay=None):
         if got_shape != want_shape or history.wf_failures(y):
             V.fail("%s: result does not have exactly the requested mode sizes" % kind, dict(desc, got=got_shape, want=want_shape)); continue
         nrm = float(ref.abs().pow(2).sum().sqrt()); err = float((y.full() - ref).abs().pow(2).sum().sqrt())
-        if err > CONST * eps * nrm + 1e-11 * nrm:
+        if err > CONST * eps * nrm + (1e-4 if cancel[0] else 1e-11) * nrm:
             V.fail("%s: value differs from the dense result by more than %g*eps" % (kind, CONST), dict(desc, rel_err=err / max(nrm, 1e-300)))
-        elif cplx and nrm > 0:
+        elif cplx and nrm > 0 and not cancel[0]:
             j = int(ref.abs().reshape(-1).argmax())
             a, b = complex(y.full().reshape(-1)[j]), complex(ref.reshape(-1)[j])
             if abs(a - b) > (CONST * eps + 1e-10) * abs(b) * 3: V.fail("%s: phase of the largest entry changed" % kind, dict(desc, got=str(a), want=str(b)))
